@@ -175,9 +175,13 @@ def source(op, sig, tuples):
     if op in ("CharNum", "CharOrd"):
         decl = ""
     lines = [HEADER % decl]
+    # one small function per tuple: the inliner's size budget is per function, and only inlined literal conversions leave the
+    # folder constants to work on (one long file-level sequence stops being inlined, hence folded, after a few dozen calls)
     for i, tup in enumerate(tuples):
         call = "%s(%s)" % (op, ", ".join(lit(t, v) for t, v in zip(args, tup)))
-        lines.append("%s(%d, %s);" % (PRN[ret], i, call))
+        lines.append("t%d(): () == %s(%d, %s);" % (i, PRN[ret], i, call))
+    for i in range(len(tuples)):
+        lines.append("t%d();" % i)
     return "\n".join(lines) + "\n"
 
 
@@ -226,9 +230,11 @@ def run_op(args):
             if len(p) >= 3 and p[1].isdigit():
                 lines[k][int(p[1])] = norm_line(ret, " ".join(p[2:]))
     try:
-        folded = ("(BCall %s" % op) not in open(os.path.join(wd, "q2.fm"), errors="replace").read()
+        left = len(re.findall(r"\(BCall\s+%s\b" % re.escape(op), open(os.path.join(wd, "q2.fm"), errors="replace").read()))
+        folded = left < len(tuples) or (not argt and left == 0)     # some application was evaluated at compile time
     except OSError:
-        folded = False
+        left, folded = len(tuples), False
+    ev.extra.setdefault("unfolded_calls", {})[op] = "%d/%d" % (left, len(tuples))
     ev.classes["op_folded" if folded else "op_not_folded"] += 1
     ev.extra.setdefault("fold", {})[op] = folded
     for i, tup in enumerate(tuples):
